@@ -48,12 +48,17 @@ def work_zoo(chunk, st):
 def work_multi_skip(chunk, st):
     # several targets in one invocation: the per-target bounds hold for each of them, with the rate check skipped and (one worker) with it on
     HK = runner.M['hostkeytest'].HostKeyTest
-    for kexes, nkeys, skip, fmt in chunk:
+    for task in chunk:
+        kexes, nkeys, skip, fmt = task[:4]
+        layout = task[4] if len(task) > 4 else 'two-hosts'
         servers = [rate_server('normal', list(kexes), nkeys) for _ in range(2)]
         opts = ['-n'] + (['--skip-rate-test'] if skip else []) + (['-j'] if fmt == 'json' else [])
-        res, outs = H.audit_sequence(servers, opts=opts)
-        st.execution(res.world, outcome=('multi', skip, len(res.world.conns)), root=('multi', kexes, nkeys, skip, fmt), nontrivial=('multi', kexes, nkeys, skip, fmt))
-        d = {'kex': list(kexes), 'host_keys': nkeys, 'skip_rate_test': skip, 'fmt': fmt, 'status': res.status}
+        if layout == 'one-host-two-ports':      # two services of one machine: each is bounded on its own, and each is actually audited
+            res, outs = H.audit_sequence(servers, opts=opts, hosts=['gw.example', 'gw.example'], ports=[22, 2222])
+        else:
+            res, outs = H.audit_sequence(servers, opts=opts)
+        st.execution(res.world, outcome=('multi', skip, layout, len(res.world.conns)), root=('multi', kexes, nkeys, skip, fmt, layout), nontrivial=('multi', kexes, nkeys, skip, fmt, layout))
+        d = {'kex': list(kexes), 'host_keys': nkeys, 'skip_rate_test': skip, 'fmt': fmt, 'status': res.status, 'layout': layout}
         if res.hang or res.exc:
             st.violation('multi-target:hang-or-exception', dict(d, hang=res.hang, exc=res.exc))
             continue
@@ -63,6 +68,8 @@ def work_multi_skip(chunk, st):
             dh = any(k.startswith(('diffie-hellman', 'ecdh', 'curve25519', 'sntrup')) for k in srv.kex)
             cap = 1 + probed + 9 * gex + (0 if skip or not dh else 38 + 3 + 20)
             n = len(srv.records)
+            if n == 0:
+                st.violation('multi-target:a-listed-service-was-never-contacted', dict(d, target=i))
             if n > cap:
                 st.violation('multi-target:too-many-connections:%s' % ('rate-check-skipped' if skip else 'rate-check-on'), dict(d, target=i, connections=n, bound=cap))
         leaked = [s.fd for s in res.world.sockets if not s.closed]
@@ -266,6 +273,7 @@ def run(tier, seed):
     par.pmap(work_rate, rate_tasks, stats=st)
     mt = [(k, n, skip, f) for k in (('curve25519-sha256',), ('diffie-hellman-group14-sha256', 'diffie-hellman-group-exchange-sha256')) for n in (1, 3)
           for skip in (True, False) for f in ('text', 'json')]
+    mt += [t + ('one-host-two-ports',) for t in mt]
     par.pmap(work_multi_skip, mt, stats=st, chunk=2)
     from props import c09
     par.pmap(work_degenerate, c09.degenerate_gex_tasks(), stats=st, procs=1)
